@@ -2,5 +2,6 @@ SPECIFICATION Spec
 CONSTANT Tier = 0
 INVARIANT InvFlip
 INVARIANT InvRoundTrip
+INVARIANT InvFaithful
 INVARIANT Emit
 CHECK_DEADLOCK FALSE
